@@ -285,8 +285,10 @@ theorem data_chainVal {wf : Bool} {f : Val → Val → Val} (hf : ∀ a b, Data 
 
 /-! ### environments and built-ins that keep values data -/
 
-/-- The environments of the theorems of `C05Compile2`: no stored programs, bindings present, no functions
-    bound by the caller, every parameter bound to plain data. -/
+/-- The environments of the theorems of `C05Compile2`: no stored programs and no recording of the
+    unresolved-name flag (`NoProgs`: every run-time environment; the compile-time run is related to one by
+    `Lemmas/Unres.lean`), bindings present, no functions bound by the caller, every parameter bound to plain
+    data. -/
 structure EnvOK (env : Env) : Prop where
   noProgs : NoProgs env
   binds : env.hasBinds = true
@@ -303,7 +305,7 @@ theorem EnvOK.plainParams {env : Env} (h : EnvOK env) : PlainParams env :=
 
 theorem EnvOK.bind {env : Env} (h : EnvOK env) (x : Str) {v : Val} (hv : Data v) : EnvOK (env.bind x v) := by
   refine ⟨?_, h.binds, h.noUser, ?_⟩
-  · intro n; exact h.noProgs n
+  · exact ⟨h.noProgs.prog, h.noProgs.untracked⟩
   · intro n w hw
     simp only [Env.getParam, Env.bind, h.binds, if_true, lookup] at hw
     split at hw
@@ -569,8 +571,10 @@ theorem go_access (hnp : NoProgs env) (hb : env.hasBinds = true) (w : Val) (name
       simp only []
       cases Map.get m name with
       | some v => simp [pushV]
-      | none => cases env.callable B name <;> simp [pushV, Val.isErr]
-    | _ => simp only [Bool.not_true, Bool.false_eq_true, if_false]; cases env.callable B name <;> simp [pushV, Val.isErr])
+      | none => cases env.callable B name <;> simp [pushV, Val.isErr, markUnres_untracked hnp.untracked]
+    | _ =>
+      simp only [Bool.not_true, Bool.false_eq_true, if_false]
+      cases env.callable B name <;> simp [pushV, Val.isErr, markUnres_untracked hnp.untracked])
 
 /-- `c; PUSH name; ACCESS`. -/
 theorem runsE_access (hnp : NoProgs env) (hb : env.hasBinds = true) {c : List Instr} {o : Val}
@@ -788,9 +792,10 @@ theorem callStep_ident (henv : EnvOK env) (fname : Str) {argv : List Val} {res :
       intro len pc st log
       simp only [step, popRaw, popN_plain henv.noProgs argv hp, getFunc_eq henv, hf, Option.isSome_none, hm]
       cases ht : env.getType fname with
-      | none => simp only [ht, callRes] at hr; subst hr; simp [pushV]
+      | none => simp only [ht, callRes] at hr; subst hr; simp [pushV, markUnres_untracked henv.noProgs.untracked]
       | some t =>
-        cases t <;> simp only [ht, callRes] at hr <;> subst hr <;> (try simp [pushV])
+        cases t <;> simp only [ht, callRes] at hr <;> subst hr <;>
+          (try simp [pushV, markUnres_untracked henv.noProgs.untracked])
         simp only [hev log, applyRes]
         cases res <;> simp [pushV, Abort.kind]
 
